@@ -92,7 +92,7 @@ def run_single(case, drv) -> Outcome:
     xd = (x / sc).reshape(-1).to(torch.complex128)
     if not bool(torch.isfinite(torch.view_as_real(xd)).all()):
         viol = {'signature': 'cg:single:nonfinite', 'what': f'cg returns non-finite values in single precision for an HPD system: {case}'}
-    elif case['budget'] >= batch * n and float((xd - xs.reshape(-1)).abs().max()) > 1e-5 * cond * max(1.0, float(xs.abs().max())):
+    elif case['budget'] >= batch * n and float((xd - xs.reshape(-1)).abs().nan_to_num(nan=float('inf')).max()) > 1e-5 * cond * max(1.0, float(xs.abs().max())):
         viol = {'signature': 'cg:single:n-steps', 'what': f'after {case["budget"]} >= n = {batch * n} iterations with tolerance 0 the single precision result is '
                                                            f'{float((xd - xs.reshape(-1)).abs().max()):.3g} away from the solution (condition number {cond:.3g}) ({case})'}
     return Outcome(key=('cg_single', n, batch, case['sys'], case['start'], case['budget'], case['scale_exp'], case['seed'] % 17), viol=viol,
@@ -194,7 +194,7 @@ def run(case, drv) -> Outcome:
         for xi, ri, ki in trace:
             xv = xi.reshape(-1).to(torch.complex128)
             true_r = bf - Hd @ xv
-            if float((ri.reshape(-1).to(torch.complex128) - true_r).abs().max()) > 1e-7 * max(1.0, float(bf.abs().max())):
+            if float((ri.reshape(-1).to(torch.complex128) - true_r).abs().nan_to_num(nan=float('inf')).max()) > 1e-7 * max(1.0, float(bf.abs().max())):
                 viol = viol or {'signature': f'cg:residual:{sig}', 'what': f'callback residual at iteration {ki} is not b - H x_k ({case})'}
             errs.append(hnorm2(xsf - xv))
             iterates.append(xv)
@@ -220,7 +220,7 @@ def run(case, drv) -> Outcome:
                     viol = viol or {'signature': f'cg:krylov:{sig}',
                                     'what': f'iterate {k} is not Krylov-optimal: H-norm error^2 {errs[k]:.6g} > optimum {opt:.6g} over x0+K_{k} ({case})'}
                     break
-        if case['tol'] == '0' and case['budget'] >= N and float((x.reshape(-1).to(torch.complex128) - xsf).abs().max()) > 1e-6 * max(1.0, float(xsf.abs().max())):
+        if case['tol'] == '0' and case['budget'] >= N and float((x.reshape(-1).to(torch.complex128) - xsf).abs().nan_to_num(nan=float('inf')).max()) > 1e-6 * max(1.0, float(xsf.abs().max())):
             viol = viol or {'signature': f'cg:n-steps:{sig}', 'what': f'after {case["budget"]} >= n = {N} iterations the solution is not reached ({case})'}
     # inputs untouched
     if not torch.equal(b_in, b_copy) or b_in._version != b_ver or (x0_in is not None and (not torch.equal(x0_in, x0_copy) or x0_in._version != x0_ver)):
